@@ -10,6 +10,8 @@
 (* Terms (JSON records, field n = node kind):                              *)
 (*   T(i)            side-effecting leaf: event L<i>, value i              *)
 (*   B(i)            leaf that raises: event L<i>, exception i             *)
+(*   S(i)            str-valued leaf: event L<i>; a call site given it      *)
+(*                   raises the library's "No method" error (exception 77) *)
 (*   X               the variable bound by the enclosing comprehension /   *)
 (*                   lambda / nested def                                   *)
 (*   C(site,arg,kw,star,dstar)  call site: recurse "R", call_next "N",     *)
@@ -55,12 +57,14 @@ EvalLoop(elt, cond, vals, j, ev, sum) ==
 Eval(t, x) ==
   CASE t.n = "T" -> Ok(<<"L" \o ToString(t.i)>>, t.i)
     [] t.n = "B" -> [ev |-> <<"L" \o ToString(t.i)>>, val |-> 0, err |-> t.i]
+    [] t.n = "S" -> Ok(<<"L" \o ToString(t.i)>>, 0 - 1000 - t.i)   \* a str-valued leaf: no method accepts it
     [] t.n = "X" -> Ok(<<>>, x)
     [] t.n = "C" ->
          LET a == Eval(t.arg, x) IN
          IF a.err # 0 THEN a
          ELSE LET k == IF IsNull(t.kw) THEN Ok(<<>>, 0) ELSE Eval(t.kw, x) IN
               IF k.err # 0 THEN [ev |-> a.ev \o k.ev, val |-> 0, err |-> k.err]
+              ELSE IF a.val <= 0 - 1000 THEN [ev |-> a.ev \o k.ev, val |-> 0, err |-> 77]   \* "No method" raised at the call site
               ELSE Ok(a.ev \o k.ev \o <<(IF t.site = "N" THEN "N" ELSE "R") \o ToString(a.val) \o "k" \o ToString(k.val)>>,
                       a.val + (IF t.site = "N" THEN 100 ELSE 10) + 3 * k.val)
     [] t.n = "CX" ->
@@ -102,7 +106,7 @@ Eval(t, x) ==
 (* Python forbids assignment expressions inside a comprehension iterable *)
 RECURSIVE NoWalrus(_)
 NoWalrus(t) ==
-  CASE t.n \in {"T", "B", "X", "null"} -> TRUE
+  CASE t.n \in {"T", "B", "S", "X", "null"} -> TRUE
     [] t.n \in {"W", "CX"} -> FALSE
     [] t.n = "C" -> NoWalrus(t.arg) /\ NoWalrus(t.kw)
     [] t.n \in {"Add", "And", "Or"} -> NoWalrus(t.a) /\ NoWalrus(t.b)
@@ -116,7 +120,7 @@ NoWalrus(t) ==
 RECURSIVE WellFormed(_, _, _)
 WellFormed(t, bound, d) ==
   /\ d >= 0
-  /\ CASE t.n \in {"T", "B"} -> t.i \in 0..9
+  /\ CASE t.n \in {"T", "B", "S"} -> t.i \in 0..9
        [] t.n = "X" -> bound
        [] t.n = "C" -> /\ t.site \in {"R", "N", "S"} /\ WellFormed(t.arg, bound, d - 1)
                        /\ (IsNull(t.kw) \/ WellFormed(t.kw, bound, d - 1))
